@@ -87,6 +87,28 @@ func failingOps() []Step {
 		{Op: "kv.check-session", Key: "verif/guard", Sess: SessionUUID(999)},
 		{Op: "service.get", Node: "verif-no-such-node", SvcID: "nope"},
 		{Op: "node.get", Node: "verif-no-such-node"},
+		// compare-and-set verbs whose supplied index can never match ("stale" never resolves to the current index)
+		{Op: "node.cas", Node: "n1", Addr: "10.0.0.1", Idx: "stale"},
+		{Op: "node.delete-cas", Node: "n1", Idx: "stale"},
+		{Op: "service.cas", Node: "n1", Svc: "web", Port: 8000, Idx: "stale"},
+		{Op: "service.delete-cas", Node: "n1", Svc: "web", Idx: "stale"},
+		{Op: "check.cas", Node: "n1", Checks: []Check{{ID: "serfHealth", Status: "passing"}}, Idx: "stale"},
+		{Op: "check.delete-cas", Node: "n1", Checks: []Check{{ID: "serfHealth"}}, Idx: "stale"},
+		{Op: "kv.lock", Key: "verif/guard", Sess: SessionUUID(998)},
+	}
+}
+
+// isolationProbes: [write E; compare-and-set E with the index E had BEFORE the transaction]. The second
+// op must see the first one's effect (the index moved, or the entity now exists) and fail, which fails the
+// whole transaction.
+func isolationProbes() [][]Step {
+	return [][]Step{
+		{{Op: "kv.set", Key: "verif/ryw", Val: "x"}, {Op: "kv.cas", Key: "verif/ryw", Val: "y", Idx: "cur"}},
+		{{Op: "node.set", Node: "n1", Addr: "10.0.9.9"}, {Op: "node.cas", Node: "n1", Addr: "10.0.9.8", Idx: "cur"}},
+		{{Op: "service.set", Node: "n1", Svc: "web", Port: 8111}, {Op: "service.cas", Node: "n1", Svc: "web", Port: 8112, Idx: "cur"}},
+		{{Op: "check.set", Node: "n1", Checks: []Check{{ID: "verif-c", Status: "passing"}}}, {Op: "check.cas", Node: "n1", Checks: []Check{{ID: "verif-c", Status: "warning"}}, Idx: "cur"}},
+		{{Op: "check.delete", Node: "n1", Checks: []Check{{ID: "serfHealth"}}}, {Op: "check.delete-cas", Node: "n1", Checks: []Check{{ID: "serfHealth"}}, Idx: "cur"}},
+		{{Op: "kv.delete", Key: "verif/guard"}, {Op: "kv.check-index", Key: "verif/guard", Idx: "cur"}},
 	}
 }
 
@@ -274,6 +296,20 @@ func (C05) execute(p *Plan, r *simkit.Run) *simkit.Violation {
 		r.Steps++
 		r.Hit("probe.failing-position-enumerated")
 		if v := attempt(variant, fmt.Sprintf("fail@%d:%s", pos, f.Op), true); v != nil {
+			return v
+		}
+	}
+	// 1b. isolation: a compare-and-set sees the writes of earlier ops of the same transaction
+	for pi, probe := range isolationProbes() {
+		if (pi+len(prefix))%2 == 0 {
+			continue // half of the probes per run keep the cost down; the seed decides which half
+		}
+		variant := Step{Op: "txn"}
+		variant.Ops = append(variant.Ops, txn.Ops...)
+		variant.Ops = append(variant.Ops, probe...)
+		r.Steps++
+		r.Hit("probe.isolation-probe")
+		if v := attempt(variant, fmt.Sprintf("isolation:%s+%s", probe[0].Op, probe[1].Op), true); v != nil {
 			return v
 		}
 	}
